@@ -34,14 +34,32 @@ def contested_cfg(menu, ents, double=False):
             for e in ents: cfg[(c, e)] = build()
     return cfg, list(range(len(pairs) * (2 if double else 1)))
 
-def history_scenario(rng, menu, ents, ops, double=False):
+def history_scenario(rng, menu, ents, ops, double=False, held=False):
     cfg, keys = contested_cfg(menu, ents, double)
     steps = []
     for o in ops:
         steps.append(sop(o))
-        steps.append(frame(raw()))
+        # held: a type that arrives by insertion finds every key still down (no idle frame in between)
+        if not (held and 'OInsert' in o and steps and 'SFrame' in steps[-2]):
+            steps.append(frame(raw()))
         steps.append(frame(raw(keys=keys)))
     return scenario(menu, ents, cfg, steps)
+
+def middle_arrives(rng, menu, double):
+    """the highest and the lowest type contest a key that is held; a type of a priority in between, whose own keys are up,
+    is inserted (on the same or on another entity): the lowest must stay silent"""
+    by_prio = sorted(menu, key=lambda c: -CTX_PRIO[c])
+    hi, lo = by_prio[0], by_prio[-1]
+    cfg, keys = contested_cfg(menu, [0, 1], double)
+    pairs = list(itertools.combinations(menu, 2))
+    kk = [i for i, p in enumerate(pairs) if set(p) == {hi, lo}]
+    held = kk + ([k + len(pairs) for k in kk] if double else [])
+    for mids_on in (0, 1):
+        steps = [sop(spawn(0, [])), sop(spawn(1, [])), sop(insert(0, hi)), sop(insert(0 if not ctx_shared(lo) else 1, lo)), frame(raw()), frame(raw(keys=held))]
+        for mid in by_prio[1:-1]:
+            steps += [sop(insert(mids_on if ctx_shared(mid) else 0, mid)), frame(raw(keys=held))]
+        steps += [frame(raw()), frame(raw(keys=keys))]
+        yield scenario(menu, [0, 1], cfg, steps)
 
 def cases(tier, rng):
     ntypes = 4 if tier == 'thorough' else 3
@@ -58,9 +76,14 @@ def cases(tier, rng):
                 base_ops = ops
                 yield (history_scenario(rng, menu, [0, 1], base_ops), 'insertion-order')
                 yield (history_scenario(rng, menu, [0, 1], base_ops, True), 'insertion-order-two-keys')
+                yield (history_scenario(rng, menu, [0, 1], base_ops, nents == 2, True), 'insertion-order-keys-held')
                 for c in menu:
                     yield (history_scenario(rng, menu, [0, 1], base_ops + [remove(0, c), insert(0, c)]), 'remove-reinsert')
                 yield (history_scenario(rng, menu, [0, 1], base_ops + [REBUILD]), 'rebuild')
+    for menu in ([0, 1, 2], [5, 6, 7], [1, 3, 4, 6], [0, 2, 5, 7], [2, 3, 4]):
+        for double in (False, True):
+            for sc_ in middle_arrives(rng, sorted(menu), double):
+                yield (sc_, 'middle-type-arrives-while-held')
     for _ in range(1500 if tier == 'thorough' else 120):
         n = rng.randint(3, 5)
         menu = sorted(rng.sample(range(8), n))
@@ -78,7 +101,7 @@ def cases(tier, rng):
                 # move an exclusive type to another entity: remove first, so that one entity holds it at a time
                 if not ctx_shared(c):
                     ops.append(remove(owner[c], c)); owner[c] = rng.choice(ents); ops.append(insert(owner[c], c))
-        yield (history_scenario(rng, menu, ents, ops, rng.random() < .5), 'random')
+        yield (history_scenario(rng, menu, ents, ops, rng.random() < .5, rng.random() < .4), 'random')
 
 def nontrivial(case, out):
     return out.count('SFired') >= 2
@@ -87,8 +110,8 @@ STAGES = [dict(name='priority', mode='app', coq='Check.C06c', cases=cases, nontr
                exhaustive={'thorough': True, 'quick': True},
                rule='3 (quick) / 4 (thorough) context types out of priorities {30,20,-10,0,10,-20,15,5} in two selections: every insertion order, each followed by every single removal and re-insertion and by a rebuild, '
                     'over 1-2 entities; random histories of 4-40 inserts/removes/rebuilds/moves over 3-5 types and 3 entities. Every pair of types contests one key - or, in half of the cases, two keys bound by one Cumulative / MaxAbs action - through a consuming action in both; after each op '
-                    'an idle frame and a frame with all keys down are run and the winner of every pair is read from the polled states. non-trivial = at least two actions fire; distinct = distinct scenario text')]
-CLAUSES = {1: 'a lower-priority context won a contested input (or a higher-priority one did not fire)', 2: 'events of a lower-priority context were produced before those of a higher-priority one',
+                    'an idle frame and a frame with all keys down are run and the winner of every pair is read from the polled states; in a third of the cases insertions happen while all keys stay down, and a type of intermediate priority arrives while the highest and the lowest contest a held key: the existing instances must not notice. non-trivial = at least two actions fire; distinct = distinct scenario text')]
+CLAUSES = {1: 'a lower-priority context won a contested input (or a higher-priority one did not fire)', 2: 'events of a lower-priority context were produced before those of a higher-priority one', 3: 'a context type inserted while all keys stayed down changed the state of an action of an instance that was already there (a loser started to fire, or a winner stopped)',
            8: 'panic', 9: 'malformed trace', 10: 'panic'}
 def describe(stage, clause): return CLAUSES.get(clause, 'clause %d' % clause)
 def matches_known(k, case, verdict): return False
